@@ -4,7 +4,12 @@ Correspondence: the real front gate (TwistedServer.datagramReceived; _UdpServer.
 same text and is compared separately on the unit srv_gate) + the real UdpServerThread, stepped
 deterministically, against Server.v (same machinery as C10) under hostile traffic.
 Oracle (implementation only): loop-thread liveness, the honest echo client's service, per-address
-byte counters at the mock socket, no reaction whatsoever to block-listed IPs."""
+byte counters at the mock socket, no reaction whatsoever to block-listed IPs.
+Worlds run behind every front door of the library in turn (harness/srvx.py: TwistedServer.datagramReceived with a
+fresh thread, the thread TwistedServer / ThreadedServer build in their constructor, the socket loop of _UdpServer.run
+on a scripted socket) and with the context configured before or after the server object was built.
+halfopen_world: peers that hold a session key but never complete the handshake, over many seconds (byte AND datagram
+accounting per address that never got a connect event)."""
 import struct
 from harness import lib
 from harness import connsim as S
@@ -17,6 +22,12 @@ RULE = ("byte strings up to RECV_SIZE (and beyond) from many addresses through t
         "hello-typed plaintext with count != 1 or inner APP/DISCONNECT/CHALLENGE messages, spoofed source addresses of "
         "established clients, replays, sources with port 0 and block-listed IPs — interleaved with 1-2 honest echo clients; "
         "non-trivial = a world in which the honest client exchanged >= 5 echoes while >= 4 hostile kinds were fed")
+HALFOPEN_RULE = ("half-open worlds: up to 5 hostile peers per world that do the key exchange with a real UdpClient (they HOLD the session key of "
+                 "their temporary slot) and then answer the challenge with a wrong token / token 0 / another connection's token / garbage / APP, "
+                 "KEEP_ALIVE or DISCONNECT messages in a CHALLENGE_RESP-typed datagram, or not at all, and repeat the wrong answer every 0.3-1.9 s "
+                 "for 11-22 s of virtual time next to an honest echo client, behind every front door; per address that never got a connect event: "
+                 "bytes out <= bytes in and datagrams out <= client hellos in, at every tick; non-trivial = world with >= 5 echoes and >= 5 wrong answers. "
+                 "The random hostile worlds above also rotate over the front doors and over configure-before / configure-after-construction (setBlockList)")
 ASSUMPTIONS = ["virtual clock on the 1/1024 s grid",
                "the mock socket behaves like the OS measured on this host: sendto to port 0 raises OSError(EINVAL) (checked each run by srvsim.os_refuses_port0)",
                "|server hello datagram| <= |minimal accepted client hello datagram|, both measured from the implementation each run and asserted"]
@@ -517,7 +528,8 @@ def run(run):
         impl.append([0])
         model.append(d)
     from harness import srvx as X
-    for i in range(40 if run.thorough() else 8):
+    run.rules.append(HALFOPEN_RULE)
+    for i in range(120 if run.thorough() else 8):
         c, d = halfopen_world(run, run.rng, i, X.FRONTS[i % len(X.FRONTS)])
         cases.append(c)
         impl.append([0])
